@@ -673,7 +673,7 @@ Definition equals_step (r : efns) (order : list str -> list str) (a0 b0 : value)
            match l with
            | [] => Ok acc
            | m :: l' =>
-               if p_is_unk m then Ok EqUnknown
+               if negb (p_wholly_known m) then Ok EqUnknown          (* fix: commit e670d77 (was: the member itself unknown) *)
                else do h <- set_has_with r.(e_equals) e other m;
                     go l' (if h then acc else EqFalse)
            end) l EqTrue in
